@@ -1594,6 +1594,48 @@ func (e *c34Env) analyse(fam, format string, s *PkgSpec, data []byte, res *c34Re
 			} else {
 				tarModel(which, append(append([]byte{}, sg.Tar...), make([]byte, 1024)...), sg.Entries)
 			}
+			// the control segment as apk.createBuilderControl assembles it (ApkControl.lean; apk_scripts_in_control_segment):
+			// .PKGINFO as found (C02 / C03 judge it), the configured scripts read from their files, their checksum records
+			// recomputed here – member set, order, names, modes, times, records, bodies
+			if which == "control-segment" && len(sg.Tar) <= e.segCap/4 {
+				var pk []byte
+				for _, en := range sg.Entries {
+					if en.Name == ".PKGINFO" {
+						pk = en.Body
+					}
+				}
+				slots := [][2]string{{".post-deinstall", info.Scripts.PostRemove}, {".post-install", info.Scripts.PostInstall}, {".post-upgrade", info.APK.Scripts.PostUpgrade},
+					{".pre-deinstall", info.Scripts.PreRemove}, {".pre-install", info.Scripts.PreInstall}, {".pre-upgrade", info.APK.Scripts.PreUpgrade}}
+				var sc strings.Builder
+				n, usable := 0, true
+				for _, sl := range slots {
+					if sl[1] == "" {
+						continue
+					}
+					st, serr := os.Stat(sl[1])
+					body, rerr := os.ReadFile(sl[1])
+					if serr != nil || rerr != nil || st.ModTime().Nanosecond() != 0 {
+						usable = false // a sub-second mtime travels in a PAX mtime record: outside the model
+						break
+					}
+					h := sha1.Sum(body)
+					n++
+					fmt.Fprintf(&sc, " %s %s %d %s", wire.H(sl[0]), wire.H(string(body)), st.ModTime().Unix(), wire.H(hex.EncodeToString(h[:])))
+				}
+				if usable {
+					res.Checks = append(res.Checks, "apkcontrolseg")
+					res.TarBy["apk:control:assembly-compared"]++
+					tarb := sg.Tar
+					ask(fmt.Sprintf("apkcontrolseg %s %d%s", wire.H(string(pk)), n, sc.String()), func(ans string) {
+						got, _ := wire.UnH(ans)
+						if got != string(tarb) {
+							res.f04("apk:control-segment-differs-from-model", "the control segment is not what the model of apk.createBuilderControl assembles from .PKGINFO and the configured script files (member set, order, names, modes, times, checksum records or bodies differ): "+c34FirstDiff(got, string(tarb)))
+						}
+					})
+				} else {
+					res.TarBy["apk:control:assembly-skipped-subsecond-script-mtime"]++
+				}
+			}
 			// model of apk.writeTgz
 			if len(sg.Tar) > e.segCap {
 				res.SegSkip++
